@@ -41,6 +41,7 @@ func c02Configs(thorough bool) []c01Config {
 	}
 	// directed base schedules B4/B5 with a crash+restart of every node before every step
 	add("BASE-B4-B5-crash-insertion", 3, 3, 1, "base", 0, 0)
+	cs[len(cs)-1].BudgetS = 200 // B4..B8 with crash insertion: about 1100 scenario runs
 	if !thorough {
 		add("B-nobyz-R1-crash1-dev1", -1, 1, 1, "dev", 1, 0)
 		add("C-byz1-R1-crash1-dev1", 1, 1, 1, "dev", 1, 0)
